@@ -71,7 +71,8 @@ def run_sort_case(job):
         gaf = os.path.join(d, "in.gaf" + (".gz" if in_storage == "bgzf" else ""))
         write_text(gaf, "\n".join(lines) + "\n", in_storage, block=block)
         out = os.path.join(d, "out.gaf" + (".gz" if out_bgzip else ""))
-        argv = ["sort", gaf, gfa, "--outgaf", out]
+        to_stdout = mode != "C10" and not out_bgzip and not outind and pad == 0 and len(recs) % 4 == 3
+        argv = ["sort", gaf, gfa] + ([] if to_stdout else ["--outgaf", out])
         gsi_path = out + ".gsi"
         if out_bgzip:
             argv.append("--bgzip")
@@ -79,9 +80,12 @@ def run_sort_case(job):
             gsi_path = os.path.join(d, "my.index")
             argv += ["--outind", gsi_path]
         r = run_cli(argv, timeout=60)
+        if to_stdout and r["status"] == "ok":      # no --outgaf: the sorted records go to standard output
+            with open(out, "w") as f:
+                f.write(r["stdout"])
         c = {"id": cid, "mode": mode, "file": recs, "status": r["status"] if r["status"] == "ok" else r["status"] + ":" + r["exc"][:50],
              "out": [], "gsi": [], "gsi_exists": os.path.exists(gsi_path), "reader_ok": True,
-             "cfg": {"in": in_storage, "bgzip": out_bgzip, "outind": outind, "pad": pad}}
+             "cfg": {"in": in_storage, "bgzip": out_bgzip, "outind": outind, "pad": pad, "stdout": to_stdout}}
         if os.path.exists(out) and r["status"] == "ok":
             starts, olines = line_starts(out, out_bgzip)
             where = {l: k + 1 for k, l in enumerate(lines)}
